@@ -23,6 +23,7 @@ type prog struct {
 	n      int
 	usedLa bool
 	big    bool // thorough tier: allow larger sizes
+	patch  bool // some literal is a nonUTF8Literal
 }
 
 func (p *prog) px() string { p.n++; return fmt.Sprintf("d%d", p.n) }
@@ -179,12 +180,27 @@ func strLiteral(p *prog) string {
 		return []string{`""`, `''`, `""""""`, `''''''`, `r""`}[r.Intn(5)]
 	case 1:
 		p.feat("str-non-utf8")
-		return "\"a\xff\xfeb\""
+		p.patch = true
+		return nonUTF8Literal("a\xff\xfeb")
 	case 2:
-		p.feat("str-non-utf8")
+		if r.Intn(2) == 0 {
+			p.feat("str-non-utf8")
+			p.patch = true
+			return nonUTF8Literal(rawHigh(r, 1+r.Intn(20)))
+		}
+		p.feat("str-raw-invalid-bytes-in-source")
 		return "'" + rawHigh(r, 1+r.Intn(20)) + "'"
 	case 3:
-		p.feat("str-all-bytes")
+		if r.Intn(2) == 0 {
+			p.feat("str-all-256-byte-values")
+			p.patch = true
+			all := make([]byte, 256)
+			for i := range all {
+				all[i] = byte(i)
+			}
+			return nonUTF8Literal(string(all))
+		}
+		p.feat("str-all-bytes-raw-in-source")
 		var b strings.Builder
 		b.WriteString(`"\x00`)
 		for i := 1; i < 256; i++ {
@@ -385,7 +401,9 @@ func docLiteral(p *prog) string {
 	case 2:
 		return `""`
 	case 3:
-		return "\"\"\"non-utf8 \xff\xfe doc\"\"\""
+		p.feat("doc-non-utf8")
+		p.patch = true
+		return nonUTF8Literal("non-utf8 \xff\xfe doc \xc3")
 	case 4:
 		return `"` + longText(longSizes[r.Intn(len(longSizes))]) + `"`
 	case 5:
@@ -776,7 +794,7 @@ var lightRecipes = []func(p *prog){
 }
 
 func (p *prog) input(name string, opts int) *input {
-	in := &input{family: "directed", name: name, filename: filenames[p.r.Intn(len(filenames))], src: p.text(), opts: *sl.OptionsFromBits(opts), maxSteps: 400000, feats: p.feats}
+	in := &input{family: "directed", name: name, filename: filenames[p.r.Intn(len(filenames))], src: p.text(), opts: *sl.OptionsFromBits(opts), maxSteps: 400000, feats: p.feats, patch: p.patch}
 	return in
 }
 
